@@ -24,25 +24,30 @@ Section WithEnv.
   Definition wplan := list (N * bytes).
 
   (* section_impl::save *)
-  Definition section_plan (enc : endian) (st : option istream) (t : xlat) (s : section) (hpos : N)
+  Definition section_plan (compr : bool) (enc : endian) (st : option istream) (t : xlat) (s : section) (hpos : N)
     : res (option istream * section * wplan) :=
     let s1 := if s_index s =? 0 then s else with_offset s (sh_offset s) in
     if negb (sh_type s1 =? SHT_NOBITS) && negb (sh_type s1 =? SHT_NULL) && negb (sh_size s1 =? 0) &&
        (match s_data s1 with Some _ => true | None => false end) then
+      if is_compressed compr s1 then
+        (* compression->deflate( data.get(), size ); stream.write( result ): the data pointer itself, no get_data() *)
+        d <- rd (s_data s1) 0 (sh_size s1) ;;
+        Ok (st, s1, [(hpos, shdr_bytes enc s1); (sh_offset s1, map codec_byte d)])
+      else
       (* stream.write( get_data(), get_size() ) *)
       '(st1, s2, _) <- sec_get_data junk st t s1 ;;
       d <- rd (s_data s2) 0 (sh_size s2) ;;
       Ok (st1, s2, [(hpos, shdr_bytes enc s1); (sh_offset s1, d)])
     else Ok (st, s1, [(hpos, shdr_bytes enc s1)]).
 
-  Fixpoint sections_plan (enc : endian) (h : ehdr) (t : xlat) (st : option istream) (done todo : list section)
+  Fixpoint sections_plan (compr : bool) (enc : endian) (h : ehdr) (t : xlat) (st : option istream) (done todo : list section)
            (acc : wplan) : res (option istream * list section * wplan) :=
     match todo with
     | [] => Ok (st, rev_append done [], acc)
     | s :: rest =>
         let hpos := entry_pos (e_shoff h) (e_shentsize h) (s_index s) in
-        '(st1, s1, w) <- section_plan enc st t s hpos ;;
-        sections_plan enc h t st1 (s1 :: done) rest (acc ++ w)
+        '(st1, s1, w) <- section_plan compr enc st t s hpos ;;
+        sections_plan compr enc h t st1 (s1 :: done) rest (acc ++ w)
     end.
 
   (* segment_impl::save *)
@@ -83,7 +88,7 @@ Section WithEnv.
                 let '(os1, ok1) := save_header h (el_xlat el1) os in
                 if negb ok1 then Ok (el1, os1, false)
                 else
-                  '(st1, secs1, plan_s) <- sections_plan (e_enc h) h (el_xlat el1) (el_stream el1) [] (el_secs el1) [] ;;
+                  '(st1, secs1, plan_s) <- sections_plan (el_compr el1) (e_enc h) h (el_xlat el1) (el_stream el1) [] (el_secs el1) [] ;;
                   let os2 := exec_plan os1 plan_s in
                   let el2 := with_stream (with_secs el1 secs1) st1 in
                   if os_abort os2 then Fault Abort     (* uncaught std::length_error / std::bad_alloc *)
